@@ -124,6 +124,8 @@ def inlined(fx, fn, depth=3, stop=(), _seen=None, _cache={}):
             g = fx.fns.get(p)
             if g is None or g.is_closure or p in seen or p in stop or f.get("kind") not in (None, "item"):
                 continue
+            if g.from_expansion:
+                continue        # derived impls (PartialEq::eq, Clone::clone, ...) stay calls: rules name them by trait item
             if len(blocks) + len(g.blocks) > MAX_BLOCKS:
                 continue
             gi = inlined(fx, g, depth - 1, stop, seen)
